@@ -116,7 +116,7 @@ impl<K: KeyT> SetWorld<K> {
         let slots: Vec<SetSlot<K>> = cfg.plans.iter().map(|p| SetSlot { set: Some(new_set::<K>(p)), model: Vec::new(), plan: p.clone() }).collect();
         SetWorld { slots, ctx: RunCtx::new(cfg) }
     }
-    fn set(&self, si: usize) -> &SSet<K> {
+    pub(crate) fn set(&self, si: usize) -> &SSet<K> {
         self.slots[si].set.as_ref().unwrap()
     }
     pub fn shape(&self, si: usize) -> Shape {
@@ -516,7 +516,17 @@ impl<K: KeyT> SetWorld<K> {
         let ob = &mut old_back;
         let mut unused: Vec<K> = Vec::new();
         let un = &mut unused;
+        // insert_unique_unchecked: "the value is not in the set" is the caller's obligation
+        let unique = op.k == Kd::Insert && op.c == 1 && present.is_none() && self.ctx.functional() && self.ctx.cfg.eq_mode == crate::state::EqMode::Lawful;
+        if unique {
+            sim().probe(Probe::InsertUniqueUnchecked);
+        }
         let out = match op.k {
+            Kd::Insert if unique => self.ctx.call(op, || {
+                let r = unsafe { s.insert_unique_unchecked(k) };
+                let t = (r.id(), r.serial());
+                (true, if t == (id, ks) { None } else { Some(t) })
+            }),
             Kd::Insert => self.ctx.call(op, || (s.insert(k), None)),
             Kd::Replace => self.ctx.call(op, || {
                 let r = s.replace(k);
@@ -588,6 +598,9 @@ impl<K: KeyT> SetWorld<K> {
             Kd::Insert => {
                 if flag != present.is_none() {
                     vio!(self, class, "insert({id}) returned {flag}, the model {} the id", if present.is_some() { "already holds" } else { "does not hold" });
+                }
+                if let Some(t) = ret {
+                    vio!(self, class, "insert_unique_unchecked({id}) returned a reference to {:?}, not to the inserted element (serial {ks})", t);
                 }
                 if present.is_none() {
                     model.push((id, ks));
@@ -1009,6 +1022,9 @@ impl<K: KeyT> SetWorld<K> {
         let fc = self.fctx(si, op);
         let mut visited: Vec<SE> = Vec::new();
         let vis = &mut visited;
+        let n0 = self.slots[si].model.len();
+        let mut hint_errs: Vec<String> = Vec::new();
+        let er = &mut hint_errs;
         let s = self.slots[si].set.as_mut().unwrap();
         let out = self.ctx.call(op, || {
             let mut itx = s.extract_if(|k| {
@@ -1016,15 +1032,8 @@ impl<K: KeyT> SetWorld<K> {
                 vis.push((k.id(), k.serial()));
                 yes.contains(&k.id())
             });
-            let mut got: Vec<K> = Vec::new();
-            let mut n = 0;
-            while steps < 0 || n < steps {
-                match itx.next() {
-                    Some(x) => got.push(x),
-                    None => break,
-                }
-                n += 1;
-            }
+            let (got, errs) = crate::iterdrv::drive_extract(&mut itx, steps, n0);
+            *er = errs;
             if forget {
                 std::mem::forget(itx);
             } else {
@@ -1049,6 +1058,9 @@ impl<K: KeyT> SetWorld<K> {
         }
         if !self.ctx.functional() {
             return Ok(());
+        }
+        if let Some(e) = hint_errs.into_iter().next() {
+            vio!(self, "iterlen/ExtractIf", "{e}");
         }
         let model = &mut self.slots[si].model;
         let total = model.len();
@@ -1077,6 +1089,8 @@ impl<K: KeyT> SetWorld<K> {
     fn op_drain(&mut self, si: usize, op: &Op) -> VResult {
         let steps = op.a;
         let forget = op.b == 1;
+        // b == 2: after the next() calls the rest is consumed through fold()
+        let fold = op.b == 2;
         let fc = self.fctx(si, op);
         let cap0 = self.set(si).capacity();
         let size0 = self.set(si).allocation_size();
@@ -1102,7 +1116,13 @@ impl<K: KeyT> SetWorld<K> {
                 }
                 n += 1;
             }
-            if forget {
+            if fold {
+                sim().probe(Probe::DrainFold);
+                got = itx.fold(got, |mut acc, x| {
+                    acc.push(x);
+                    acc
+                });
+            } else if forget {
                 std::mem::forget(itx);
             } else {
                 drop(itx);
@@ -1113,7 +1133,7 @@ impl<K: KeyT> SetWorld<K> {
             let mut s = sim();
             if forget {
                 s.probe(Probe::LeakDrain);
-            } else if steps >= 0 {
+            } else if steps >= 0 && !fold {
                 s.probe(Probe::EarlyDropDrain);
             }
         }
@@ -1148,7 +1168,7 @@ impl<K: KeyT> SetWorld<K> {
         if g.len() + rest.len() != model.len() || g.iter().any(|x| !model.contains(x)) {
             vio!(self, "drain/yield", "drain yielded an element that was not in the set, or one twice");
         }
-        if (steps < 0 || steps as usize >= n0) && g.len() != model.len() {
+        if (fold || steps < 0 || steps as usize >= n0) && g.len() != model.len() {
             vio!(self, "drain/yield", "a fully consumed drain yielded {} elements, the set held {}", g.len(), model.len());
         }
         if !forget {
